@@ -531,12 +531,12 @@ def case_dispatch_rf(rng, u, mod, which):
 
     def call(pool):
         ns = dict(vars(mod))
-        ns.update(method=pool.get(m), fwd_options=from_desc(fo, D(S, O), pool), pfunc=None, new_fcn=None)
+        ns.update(method=pool.get(m), fwd_options=from_desc(fo, D(S, O), pool), pfunc=pool.get(("tok", 71)), new_fcn=pool.get(("tok", 72)))
         exec(_FRAG[key], ns)
-        return (ns["method"], ns["alg_type"]) if which == "equilibrium" else (ns["method"], ns["opt_method"])
+        return (ns["method"], ns["alg_type"], ns["fwd_fcn"]) if which == "equilibrium" else (ns["method"], ns["opt_method"])
     if which == "equilibrium":
-        term = "equilibrium_method_prelude %s %s" % (c_val(m, O), c_val(tbl, D(S, O)))
-        rt = T(O, S)
+        term = "equilibrium_method_prelude %s (OTok 71) (OTok 72) %s" % (c_val(m, O), c_val(tbl, D(S, O)))
+        rt = T(O, S, O)
     else:
         term = "minimize_method_prelude %s %s %s" % (c_val(m, O), c_val(fo, D(S, O)), c_val(tbl, D(S, O)))
         rt = T(O, B)
